@@ -755,4 +755,156 @@ theorem spanRow_wf (hv1 : v.state ≠ .cont) (hv2 : v.cols = cols)
 
 end span2
 
+/-! ## Part 4: content of a line and the frame property of `make_span` -/
+
+open Tickit.RBAbs
+
+/-- What a start cell shows at offset `off` of its run. -/
+def cellContent (start : Cell) (off : Int) : Content :=
+  match start.state with
+  | .skip => .skip
+  | .text => .text start.pen start.text (start.offs + off)
+  | .erase => .erase start.pen
+  | .line => .line start.pen start.lmask
+  | .char => .char start.pen start.cp
+  | .cont => .skip
+
+/-- The content of column `C` of a line: look up the start of the run. -/
+def rowContent (row : Row) (C : Int) : Content :=
+  if (row.get C).state = .cont then cellContent (row.get (row.get C).cols) (C - (row.get C).cols)
+  else cellContent (row.get C) 0
+
+theorem absContent_eq (rb : RB) (L C : Int) :
+    absContent rb L C = if inBuf rb.lines rb.cols L C then rowContent (rb.cells L) C else .skip := by
+  unfold absContent rowContent cellContent RB.cell
+  by_cases hb : inBuf rb.lines rb.cols L C = true
+  · simp only [hb, if_true]
+    by_cases hc : ((rb.cells L).get C).state = .cont
+    · simp only [hc, if_true]
+      cases ((rb.cells L).get ((rb.cells L).get C).cols).state <;> rfl
+    · simp only [hc, if_false]
+      cases ((rb.cells L).get C).state <;> rfl
+  · simp only [hb]; rfl
+
+@[simp] theorem cellContent_setCols (c : Cell) (x off : Int) : cellContent { c with cols := x } off = cellContent c off := rfl
+
+theorem cellContent_endCell (row : Row) (e off : Int) (hs : (row.get (row.get e).cols).state.isSTE = true) :
+    cellContent (endCell row e) off = cellContent (row.get (row.get e).cols) (e - (row.get e).cols + off) := by
+  unfold endCell cellContent
+  simp only
+  cases h : (row.get (row.get e).cols).state <;> simp_all [CState.isSTE]
+  omega
+
+
+section span3
+variable {n : Int} {row : Row} {col cols : Int} (v : Cell)
+  (h : RowWF n row) (h0 : 0 ≤ col) (hc : 0 < cols) (he : col + cols ≤ n)
+
+include h h0 hc he in
+/-- **`make_span` changes the content of exactly the cells of the span.** -/
+theorem spanRow_content (hv1 : v.state ≠ .cont) (k : Int) (hk0 : 0 ≤ k) (hkn : k < n) :
+    rowContent (spanRow n row col cols v) k =
+      if col ≤ k ∧ k < col + cols then cellContent v (k - col) else rowContent row k := by
+  have W := h.facts
+  have Wr := h.runfact
+  have Fcol : (spanRow n row col cols v).get col = v := spanRow_col v
+  by_cases r2 : k = col
+  · rw [if_pos (by omega), r2]
+    unfold rowContent
+    rw [Fcol, if_neg hv1]; simp
+  · by_cases r1 : k < col
+    · rw [if_neg (by omega)]
+      have e := spanRow_lt v h h0 hc he k r1
+      have st : ((spanRow n row col cols v).get k).state = (row.get k).state := by rw [e]; split <;> rfl
+      unfold rowContent
+      rw [st]
+      by_cases hkc : (row.get k).state = .cont
+      · rw [if_pos hkc, if_pos hkc]
+        have Wk := (W k hk0 hkn).1 (cI_one.2 hkc)
+        have hne : ¬ ((row.get col).state = .cont ∧ k = (row.get col).cols) := by
+          intro hh
+          have := (W col h0 (by omega)).1 (cI_one.2 hh.1)
+          have x := this.2.2.1
+          rw [← hh.2] at x
+          have := cI_one.2 hkc; omega
+        rw [e, if_neg hne]
+        rw [spanRow_lt v h h0 hc he (row.get k).cols (by omega)]
+        split <;> rfl
+      · rw [if_neg hkc, if_neg hkc, e]
+        split <;> rfl
+    · by_cases r3 : k < col + cols
+      · rw [if_pos (by omega)]
+        obtain ⟨m1, m2, _⟩ := spanRow_mid v hc k (by omega) r3
+        unfold rowContent
+        rw [if_pos m1, m2, Fcol]
+      · rw [if_neg (by omega)]
+        have e := spanRow_ge v h h0 hc he k (by omega)
+        rw [splitAfter_get] at e
+        by_cases r4 : k = col + cols
+        · rw [r4] at hkn e ⊢
+          by_cases sp : (row.get (col + cols)).state = .cont
+          · rw [if_pos ⟨hkn, sp⟩, if_pos rfl] at e
+            have ste := h.start_isSTE _ (by omega) hkn sp
+            unfold rowContent
+            rw [e, if_pos sp, if_neg (by rw [endCell_state _ _ ste]; exact h.cont_start _ (by omega) hkn sp),
+                cellContent_endCell _ _ _ ste]
+            simp
+          · rw [if_neg (fun x => sp x.2)] at e
+            unfold rowContent
+            rw [e, if_neg sp, if_neg sp]
+        · -- to the right of the end of the span
+          have hk : col + cols < k := by omega
+          have hen : col + cols < n := by omega
+          by_cases sp : (row.get (col + cols)).state = .cont ∧ k < (row.get (col + cols)).cols + (row.get (row.get (col + cols)).cols).cols
+          · rw [if_pos ⟨hen, sp.1⟩, if_neg r4, if_pos ⟨by omega, sp.2⟩] at e
+            have We := (W _ (by omega) hen).1 (cI_one.2 sp.1)
+            have rf := Wr _ k We.1 (by omega) We.2.2.1 (by omega) sp.2
+            have ste := h.start_isSTE _ (by omega) hen sp.1
+            have eE := spanRow_ge v h h0 hc he (col + cols) (by omega)
+            rw [splitAfter_get, if_pos ⟨hen, sp.1⟩, if_pos rfl] at eE
+            unfold rowContent
+            rw [e, if_pos (cI_one.1 rf.1), if_pos (cI_one.1 rf.1)]
+            simp only
+            rw [eE, cellContent_endCell _ _ _ ste, rf.2]
+            congr 1; omega
+          · have e' : (spanRow n row col cols v).get k = row.get k := by
+              rw [e]
+              by_cases x : col + cols < n ∧ (row.get (col + cols)).state = .cont
+              · rw [if_pos x, if_neg r4, if_neg (fun y => sp ⟨x.2, y.2⟩)]
+              · rw [if_neg x]
+            unfold rowContent
+            rw [e']
+            by_cases hkc : (row.get k).state = .cont
+            · rw [if_pos hkc, if_pos hkc]
+              have Wk := (W k hk0 hkn).1 (cI_one.2 hkc)
+              -- where is the start `t` of `k`?
+              by_cases q1 : (row.get k).cols < col + cols
+              · exfalso
+                have rf := Wr (row.get k).cols (col + cols) Wk.1 (by omega) Wk.2.2.1 q1 (by omega)
+                apply sp
+                refine ⟨cI_one.1 rf.1, ?_⟩
+                rw [rf.2]; exact Wk.2.2.2
+              · have eT := spanRow_ge v h h0 hc he (row.get k).cols (by omega)
+                rw [splitAfter_get] at eT
+                have eT' : (spanRow n row col cols v).get (row.get k).cols = row.get (row.get k).cols := by
+                  rw [eT]
+                  by_cases x : col + cols < n ∧ (row.get (col + cols)).state = .cont
+                  · rw [if_pos x]
+                    by_cases q2 : (row.get k).cols = col + cols
+                    · exfalso
+                      have := Wk.2.2.1; rw [q2] at this
+                      have := cI_one.2 x.2; omega
+                    · rw [if_neg q2]
+                      by_cases y : col + cols + 1 ≤ (row.get k).cols ∧ (row.get k).cols < (row.get (col + cols)).cols + (row.get (row.get (col + cols)).cols).cols
+                      · exfalso
+                        have We := (W _ (by omega) hen).1 (cI_one.2 x.2)
+                        have rf := Wr _ (row.get k).cols We.1 (by omega) We.2.2.1 (by omega) y.2
+                        omega
+                      · rw [if_neg y]
+                  · rw [if_neg x]
+                rw [eT']
+            · rw [if_neg hkc, if_neg hkc]
+
+end span3
+
 end Tickit.RB
